@@ -507,7 +507,9 @@ CallFn(f, args, kw, env, log) ==
         a3 == IF n >= 3 THEN args[3] ELSE Null
         isI(v) == v[1] = "i"
         user == Lookup(env, "fn:" \o f)
-    IN IF user[1] = "lam" THEN Apply(user, args, log)
+    \* a def-ined function: positional arguments are published as $1.., named ones under their names, in a scope of the
+    \* call's own on top of the defining scope
+    IN IF user[1] = "lam" THEN Eval(user[2], <<ArgFrame(args) \o [i \in 1..Len(kw) |-> <<kw[i][1][2], kw[i][2]>>]>> \o user[3], log)
        ELSE CASE
           f = "list" -> R(L(args), log)
        [] f = "dict" /\ n = 0 -> R(MkDict(kw), log)
